@@ -193,7 +193,8 @@ func updateRegex(filePath string, ruleId string, chainOffset uint8, newRegex str
 
 	lines := bytes.Split(contents, []byte("\n"))
 
-	idRegex := regexp.MustCompile(fmt.Sprintf("id:%s", ruleId))
+	// match the complete id, in rule text only (not in comments)
+	idRegex := regexp.MustCompile(fmt.Sprintf(`^\s*(?:[^#\s].*)?\bid:%s(?:\D|$)`, ruleId))
 	index := 0
 	var line []byte
 	foundRule := false
